@@ -13,7 +13,7 @@ func init() {
 		ID:          "C19",
 		Title:       "In-memory object store answers queries like the bolt-backed store",
 		Technique:   "static analysis: the bolt store's paging/count/comparator rules re-applied to objectz (sibling agreement), typed-nil-in-interface rule for the null test, use-before-nil-check contradiction rule, decision tables of the five object comparators compared with the bolt comparators' documented table",
-		LevelText:   "Result equality of two engines is behavioural; what is decided is that the second engine repeats the first one's decisions: the same paging defaults and overflow-free window arithmetic, a total count independent of paging, comparators with the identical 24-case decision table and the id tie-break, a null test that can actually be true for boxed nil pointers, and no use of the iterator before its nil check. Added later: the compound comparator is decided by running it over given answers of three field comparators. Added in rounds 8-9: SORTWHOLE and CACHEKEY for the in-memory store; the answer form of IsNil (NULL). Added in round 10: every field comparator built has its direction stored from a value (CMPDIR); a make whose size is a difference needs the difference known non-negative (MAKENEG, seeded control pair). Added in round 11: an iterator handed out as a concrete pointer is never the nil pointer (ITERNIL).",
+		LevelText:   "Result equality of two engines is behavioural; what is decided is that the second engine repeats the first one's decisions: the same paging defaults and overflow-free window arithmetic, a total count independent of paging, comparators with the identical 24-case decision table and the id tie-break, a null test that can actually be true for boxed nil pointers, and no use of the iterator before its nil check. Added later: the compound comparator is decided by running it over given answers of three field comparators. Added in rounds 8-9: SORTWHOLE and CACHEKEY for the in-memory store; the answer form of IsNil (NULL). Added in round 10: every field comparator built has its direction stored from a value (CMPDIR); a make whose size is a difference needs the difference known non-negative (MAKENEG, seeded control pair). Added in round 11: an iterator handed out as a concrete pointer is never the nil pointer (ITERNIL). Added in round 13: a slice sent on a channel is not refilled by the sender (SENTSLICE); no read entry point writes a shared store object (READPATH, as in C18: answers do not depend on earlier queries).",
 		LevelNote:   "Trusted: go/types, x/tools SSA, llrb, the DECIDE interpreter. Not decided: evaluation of filters on real objects (shared ast code: C01), iteration order of the caller's iterator.",
 		DesignRef:   "DESIGN.md C19",
 		Explanation: "Sites: the paging normalisation of the objectz scanner (expanded into the functions that use it), memSortingScanner.Scan, ObjectCursor.IsNil and all ObjectSymbol.Eval implementers, the five object*SymbolComparator.compare methods, ObjectStore.newRowComparator.",
